@@ -29,10 +29,12 @@ pub enum T {
 pub struct Member {
     pub shape: String,
     pub expr: Expr,
-    /// let-expanded form (None where the binding is NOT generalised by gluon: pattern bindings)
+    /// let-expanded form (None for pattern bindings: the model keeps them monomorphic)
     pub expanded: Option<Expr>,
     /// well-typed by construction?
     pub typed: bool,
+    /// inside the fragment the Lean model defines (else: run-time oracle only)
+    pub in_model: bool,
 }
 
 fn v(x: &str) -> Expr {
@@ -222,7 +224,7 @@ pub fn family() -> Vec<Member> {
                                 for extra in 0..3 {
                                     // binding forms 2 (right-hand side is an APPLICATION: no value
                                     // restriction in gluon, still generalised) and 3 (bound through a
-                                    // tuple PATTERN: not generalised by gluon) only with the plain `f`
+                                    // tuple PATTERN) only with the plain `f`
                                     if gform >= 2 && !(outer == 0 && extra == 0) {
                                         continue;
                                     }
@@ -269,14 +271,13 @@ fn member(kind: &str, linked: bool, t: T, wrapper: usize, d: usize, gform: usize
         }
     };
     let dexpr = if d < 4 { tup(vec![use_g(t1, 0), use_g(t2, 1)]) } else { use_g(t1, 0) };
-    let typed = if gform == 3 {
-        // `let (g, _) = (\a -> …, 0)`: pattern-bound names stay monomorphic in gluon
-        t1 == t2 && (!linked || t1 == t)
-    } else if linked {
-        t1 == t && t2 == t
-    } else {
-        true
-    };
+    let typed = if linked { t1 == t && t2 == t } else { true };
+    // `let (g, _) = (\a -> …, 0)`: gluon generalises the type of a LAMBDA LITERAL at the lambda, the
+    // tuple carries the polymorphic function and the pattern-bound `g` may be used at two types
+    // (all 216 such members are accepted; `let (a, _) = (k, 1)` with a let-bound polymorphic `k`
+    // and `let (g, _) = ((\i -> i) (\a -> …), 0)` are rejected). The model keeps pattern-bound
+    // names monomorphic, so these members are outside its fragment: oracle only.
+    let in_model = !(gform == 3 && !linked && t1 != t2);
     let g_lam = lam(&["a"], body.clone());
     let build = |dexpr: Expr| -> Expr {
         let with_g = match gform {
@@ -320,5 +321,6 @@ fn member(kind: &str, linked: bool, t: T, wrapper: usize, d: usize, gform: usize
         expr,
         expanded,
         typed,
+        in_model,
     }
 }
